@@ -1,5 +1,5 @@
 import PepperProofs.ConstraintGenFiles
-import PepperProofs.ConstraintGenTotal
+import PepperProofs.ConstraintGenTotalT
 /-!
 # C05 — the constraint files honour the documented spuriousSSM input contract
 
@@ -51,6 +51,16 @@ theorem files_satisfy_contract_strand_partial {stmts : List Stmt} {spec : Spec}
       Ssm.contractB t = true ∧
       ∀ pick : Nat → Nat, Ssm.testConsistency t (Ssm.constrain t (startOf t pick)) = true := by
   obtain ⟨s, c, hs, hb⟩ := seeding_total_strand (load_wf hload)
+  exact files_satisfy_contract_partial hload hs hb ha
+
+/-- The same for the structure layout when every non-empty strand occurs in some structure. -/
+theorem files_satisfy_contract_struct_partial {stmts : List Stmt} {spec : Spec}
+    (hload : Pil.load Generated.nupackTable stmts {} = .ok spec) (hp : Placed spec)
+    {a : Arrays} (ha : getConstraints .struct spec = .ok a) :
+    ∃ t, readTriple (ssmFiles a) = some t ∧ t.eq.length = t.N ∧ t.wc.length = t.N ∧
+      Ssm.contractB t = true ∧
+      ∀ pick : Nat → Nat, Ssm.testConsistency t (Ssm.constrain t (startOf t pick)) = true := by
+  obtain ⟨s, c, hs, hb⟩ := seeding_total_struct (load_wf hload) hp
   exact files_satisfy_contract_partial hload hs hb ha
 
 /-- The documented contract implies acceptance by `test_consistency` on the constrained start sequence, for any
